@@ -53,12 +53,12 @@ SERVER_CV_CONTEXT = b"TLS 1.3, server CertificateVerify"
 CLIENT_CV_CONTEXT = b"TLS 1.3, client CertificateVerify"
 
 NAME_TYPE = {"CH": "CLIENT_HELLO", "CHpsk": "CLIENT_HELLO", "CHpskbad": "CLIENT_HELLO", "SH": "SERVER_HELLO",
-             "SHpsk": "SERVER_HELLO", "NST": "NEW_SESSION_TICKET", "EOED": "END_OF_EARLY_DATA",
+             "SHpsk": "SERVER_HELLO", "SHpskbad": "SERVER_HELLO", "NST": "NEW_SESSION_TICKET", "EOED": "END_OF_EARLY_DATA",
              "EE": "ENCRYPTED_EXTENSIONS", "EEearly": "ENCRYPTED_EXTENSIONS", "CRctx": "CERTIFICATE_REQUEST", "CERT": "CERTIFICATE", "CERTempty": "CERTIFICATE",
              "CR": "CERTIFICATE_REQUEST", "CV": "CERTIFICATE_VERIFY", "CVbad": "CERTIFICATE_VERIFY",
              "FIN": "FINISHED", "FINbad": "FINISHED", "KU": "KEY_UPDATE", "CCERT": "COMPRESSED_CERTIFICATE",
              "MH": "MESSAGE_HASH", "UNKNOWN": "UNKNOWN"}
-CLIENT_ALPHABET = ["SH", "SHpsk", "EE", "EEearly", "CR", "CRctx", "CERT", "CERTempty", "CV", "CVbad", "FIN", "FINbad", "NST",
+CLIENT_ALPHABET = ["SH", "SHpsk", "SHpskbad", "EE", "EEearly", "CR", "CRctx", "CERT", "CERTempty", "CV", "CVbad", "FIN", "FINbad", "NST",
                    "CH", "EOED", "KU", "CCERT", "MH", "UNKNOWN"]
 SERVER_ALPHABET = ["CH", "CHpsk", "CHpskbad", "CERT", "CERTempty", "CV", "CVbad", "FIN", "FINbad", "SH", "EE",
                    "CR", "NST", "EOED", "KU", "CCERT", "MH", "UNKNOWN"]
@@ -314,11 +314,27 @@ def run_case(lab, cfg, names, batch_from=None, keep_going=False):
         EncryptedExtensions and the server handshake traffic secret."""
         if variant not in st["peers"]:
             s = lab.server(tickets=(variant == "SHpsk" and psk_cfg))
+            if variant == "SHpskbad" and lab.client_ticket is not None:
+                # an impostor: it does not hold the PSK and answers with another cipher suite than the ticket's, yet its
+                # ServerHello claims to have selected the PSK
+                other = [c for c in s._cipher_suites if c != lab.client_ticket.cipher_suite]
+                s._cipher_suites = other[:1] or s._cipher_suites
             got = []
             s.update_traffic_key_cb = lambda d, e, cs, sec: got.append((d, e, cs, sec))
             sb = lab.bufs()
+            orig_push = tls.push_server_hello
+            if variant == "SHpskbad":
+                # the impostor's own ServerHello carries the pre_shared_key extension (identity 0), so that its transcript
+                # and handshake secrets are consistent with what it sends; it still derives them without the PSK
+                def push_with_psk(buf, hello):
+                    hello.pre_shared_key = 0
+                    return orig_push(buf, hello)
+                tls.push_server_hello = push_with_psk
             try:
-                s.handle_message(st["ch"], sb)
+                try:
+                    s.handle_message(st["ch"], sb)
+                finally:
+                    tls.push_server_hello = orig_push
                 sh = split_messages(sb[E.INITIAL].data)[0]
                 ee = split_messages(sb[E.HANDSHAKE].data)[0]
                 cs, sec = [(c, x) for d, e, c, x in got if d == D.ENCRYPT and e == E.HANDSHAKE][0]
@@ -347,7 +363,7 @@ def run_case(lab, cfg, names, batch_from=None, keep_going=False):
     def build(name):
         h, sec, tr = st["hash"], st["secret"], st["transcript"]
         if role == "client":
-            if name in ("SH", "SHpsk"):
+            if name in ("SH", "SHpsk", "SHpskbad"):
                 return genuine_server(name)["sh"]
             if name in ("EE", "EEearly"):
                 ee = st["ee"] if st["sh"] else genuine_server("SH")["ee"]
@@ -379,7 +395,7 @@ def run_case(lab, cfg, names, batch_from=None, keep_going=False):
     def accepted(name, data, produced):
         """Book-keeping of the adversary after the receiver accepted a message."""
         st["transcript"] += data
-        if role == "client" and name in ("SH", "SHpsk") and st["sh"] is None:
+        if role == "client" and name in ("SH", "SHpsk", "SHpskbad") and st["sh"] is None:
             p = genuine_server(name)
             st.update(sh=p["sh"], ee=p["ee"], hash=p["hash"], secret=p["secret"])
         if role == "server" and NAME_TYPE[name] == "CLIENT_HELLO" and st["sh"] is None:
@@ -469,7 +485,7 @@ def run_quic_case(lab, names):
             for i, n in enumerate(names):
                 if n in ("EE", "EEearly"):
                     m = ee if n == "EE" else with_early_data(ee)
-                elif n in ("SH", "SHpsk"):
+                elif n in ("SH", "SHpsk", "SHpskbad"):
                     m = bufs[E.INITIAL].data if n == "SH" else add_psk_to_server_hello(bufs[E.INITIAL].data)
                 elif n == "CH":
                     m = bytes(data)
@@ -785,7 +801,7 @@ def run(check):
     # ---- (V) seeded random sequences over the whole alphabet ---------------------
     for _ in range(300 if quick else 4000):
         cfg, alphabet = configs[rnd.randrange(len(configs))]
-        legal = (["SHpsk", "EE", "FIN"] if cfg["pskOffered"] and rnd.random() < 0.5 else
+        legal = ([rnd.choice(["SHpsk", "SHpsk", "SHpskbad"]), "EE", "FIN"] if cfg["pskOffered"] and rnd.random() < 0.5 else
                  ["SH", "EE"] + (["CR"] if rnd.random() < 0.3 else []) + ["CERT", "CV", "FIN"]) \
             if cfg["role"] == "client" else \
             (["CHpsk" if cfg["tickets"] and rnd.random() < 0.5 else "CH"]
